@@ -758,9 +758,45 @@ package index
 //@   ensures err == nil <==> indexSizeBits <= 32
 //@   ensures err == nil ==> len(b) == (1 << indexSizeBits) && fresh(b)
 
-//@ func MoveFiles(indexPath string, newDir string) (err error)
-//@   trusted renames every file of the index into newDir (os.Rename per file; not atomic as a whole: finding F15)
+// MoveFiles (C09): the order of the renames. Every index file the iterator names is moved
+// first, one rename per name; the header - whose presence is what makes Open treat the
+// directory as an existing index - is moved only after the iterator reported the end of the
+// files, and the bucket snapshot only after the header. nil is returned only when the header was
+// moved. (The move as a whole is not atomic: finding F15 at translateIndex.)
+//@ func MoveFiles(indexPath string, newDir string) (err error)  property C09
 //@   pure
+//@   ghost var gdone bool = false
+//@   ghost var gheader bool = false
+//@   ghost var gmoved bool = true
+//@   ghost var gcur string = ""
+//@   ghost at after call index.fileIter.next#0: gdone = ($r1 == io.EOF)
+//@   ghost at after call index.fileIter.next#0: gcur = $r0
+//@   ghost at after call index.fileIter.next#0: gmoved = !($r1 == nil)
+//@   ghost at after call os.Rename#0: gmoved = ($r0 == nil)
+//@   ghost at after call os.Rename#1: gheader = ($r0 == nil)
+//@   assert at before call os.Rename#0: @C09-each-named-file-moved !gdone && !gmoved && $a0 == gcur
+//@   assert at before call os.Rename#1: @C09-header-after-every-index-file gdone && gmoved
+//@   assert at before call os.Rename#2: @C09-snapshot-after-header gheader
+//@   internal ensures @C09-nil-means-header-moved err == nil ==> gheader && gdone
+//@   loop 0 invariant fileIter != nil && gmoved && !gdone && !gheader
+
+// fileIter (C09): consecutive file names from the header's first file; the end is reported as
+// io.EOF exactly when the next file does not exist, and the cursor advances only past a file
+// that exists.
+//@ func newFileIter(basePath string) (fi *fileIter, err error)  property C09
+//@   fresh fi
+//@   ensures err == nil ==> fi != nil && fi.basePath == basePath
+//@   ensures err != nil ==> fi == nil
+//@   assert at after call index.readHeader#0: @first-file-from-header true
+
+//@ func (fi *fileIter) next() (name string, err error)  property C09
+//@   requires fi != nil
+//@   modifies fi.fileNum
+//@   ensures @advance-only-past-existing-file err == nil ==> name == fname(fi.basePath, old(fi.fileNum)) && fi.fileNum == wrapu32(old(fi.fileNum) + 1)
+//@   ensures @no-advance-on-end err != nil ==> fi.fileNum == old(fi.fileNum)
+//@   ghost var gabsent bool = false
+//@   ghost at after call os.IsNotExist#0: gabsent = $r0
+//@   internal ensures @end-only-when-file-absent err == io.EOF ==> gabsent
 
 //@ func (idx *Index) NewIterator() (it *Iterator)  property C09
 //@   fresh it
